@@ -240,7 +240,34 @@ def _named_like_builtin(name):
     return type(name, (), {'__init__': __init__, '__module__': __name__})()
 
 
+class _OddStr(str):
+    def __len__(self):
+        raise Boom('len of the text')
+
+
+class StrReturnsOddText:
+    """__str__ answers with a str subclass whose len() raises."""
+
+    def __str__(self):
+        return _OddStr('odd text')
+
+
+class _NamelessMeta(type):
+    @property
+    def __name__(cls):
+        raise Boom('no name')
+
+
+class NamelessType(metaclass=_NamelessMeta):
+    """An instance of a class whose __name__ cannot be read."""
+
+    def __init__(self):
+        self.v = 1
+
+
 HOSTILE = [
+    ('str_returns_odd_text', lambda r: StrReturnsOddText()),
+    ('type_without_readable_name', lambda r: NamelessType()),
     ('slow_to_print', lambda r: SlowToPrint()),
     ('user_class_named_like_builtin', lambda r: _named_like_builtin(r.pick(['set', 'list', 'tuple', 'frozenset', 'long', 'str',
                                                                          'dict', 'int', 'generator', 'NoneType']))),
